@@ -22,7 +22,12 @@ m("C07", "proof",
   "(C07_metadata_call); by induction on the number of calls, k call/drain rounds emit exactly the next k "
   "tiles, one File Data PDU per call, ascending, file bytes, <= segment length (C07_stream_tiles, "
   "C07_read_len_is_tile, C07_file_data_call); the call after the last tile emits the EOF with file size "
-  "and filestore checksum (C07_eof_call, all 16 mode/closure/indication cases); header consistency and "
+  "and filestore checksum (C07_eof_call, all 16 mode/closure/indication cases); put together "
+  "(C07_whole_stream): 1+k+1 calls emit exactly Metadata ++ the k tiles ++ EOF, the payloads concatenate "
+  "to the file, every byte once; an empty file yields exactly Metadata(size 0) and EOF(size 0), never a "
+  "File Data PDU (C07_metadata_call_empty, C07_eof_call_empty, C07_whole_stream_empty); a metadata-only "
+  "request yields exactly one Metadata PDU without names and nothing after it (C07_metadata_only_call, "
+  "C07_metadata_only_second_call); header consistency and "
   "length bounds (C07_header, C07_pdu_headers, C07_file_data_len, C07_eof_ack_len under the explicit "
   "guard). Model tied to the code by differential execution; oracle re-derives the stream independently.",
   "Lean 4 theorems (induction on call count, forward simulation of the FSM) + differential correspondence",
@@ -50,7 +55,13 @@ m("C19", "proof",
   "C19_resolution_table); segment length = min(configured, max_packet_len - overhead) or refusal "
   "(C19_segment_length, C19_segment_length_refused); a transaction start takes the provider's next value "
   "and advances it (C19_transaction_start, C19_bad_provider_width) and successive values are pairwise "
-  "distinct below 2^bits (C19_sequence_numbers_distinct).",
+  "distinct below 2^bits (C19_sequence_numbers_distinct). For EVERY history of put requests (accepted, "
+  "refused, premature), state_machine calls with any PDU, retrievals, cancel requests, resets and "
+  "transactions of other handlers sharing the provider: each operation draws at most one number "
+  "(C19_seq_step), the handler's transactions got the values of strictly increasing draws "
+  "(C19_all_histories_issued; Lemmas/InvSourceSeq.lean: no method but _transaction_start touches the provider "
+  "or issues a Transaction indication, Lemmas/SeqSource.lean: relational spec of state_machine), hence with "
+  "at most 2^bits draws no two transactions share a sequence number (C19_all_histories_distinct).",
   "Lean 4 theorems (forward simulation of put_request/_transaction_start) + differential correspondence",
   "§6 C19")
 m("C17", "translation_validation",
